@@ -322,6 +322,24 @@ func vpH_C13_mixed() {
 	_, pl1, it1 := vpDoLookup(segs, dicts, l1, nil, nil)
 	var prePL segment.PostingsList
 	var preIT segment.PostingsIterator
+	if vpChoice("docs-matching-terms-between", 2) == 1 {
+		// the library's own internal reuse of lists (DocsMatchingTerms) in between
+		_, err := seg.DocsMatchingTerms([]segment.Term{vpTermRef{"a", "absent"}, vpTermRef{"a", "x"}, vpTermRef{"_id", "d1"}})
+		vpMust(err, "DocsMatchingTerms")
+		// lookups of absent terms / unknown fields still return nothing
+		for _, ft := range [][2]string{{"a", "absent"}, {"nofield", "x"}} {
+			d, err := seg.Dictionary(ft[0])
+			vpMust(err, "Dictionary")
+			pl, err := d.PostingsList([]byte(ft[1]), nil, nil)
+			vpMust(err, "PostingsList")
+			vpAssert(pl.Count() == 0, "an absent term has no postings after DocsMatchingTerms")
+			it, err := pl.Iterator(true, true, true, nil)
+			vpMust(err, "Iterator")
+			p, err := it.Next()
+			vpMust(err, "Next")
+			vpAssert(p == nil, "an absent term has no postings after DocsMatchingTerms")
+		}
+	}
 	giveList, giveIter := vpChoice("reuse-list", 2) == 1, vpChoice("reuse-iterator", 2) == 1
 	if giveList {
 		prePL = pl1
